@@ -956,6 +956,28 @@ func runC11(c *Ctx, r *Report) {
 		ctxID, _ := as.Lhs[0].(*ast.Ident)
 		cancelID, _ := as.Lhs[1].(*ast.Ident)
 		okCtx := ctxID != nil && (p.ObjOf(fetch, ctxID) == ctxParam(p, fetch) || p.CanonObj(fetch, ctxID) == ctxParam(p, fetch))
+		if !okCtx && ctxID != nil && ctxID.Name != "_" {
+			// the deadline context kept in a variable of its own: every context handed on after the derivation
+			// is that variable
+			derived := p.ObjOf(fetch, ctxID)
+			nafter, allDerived := 0, true
+			walkNoLit(fetch.Body, func(m ast.Node) bool {
+				c2, ok := m.(*ast.CallExpr)
+				if !ok || c2.Pos() < as.End() {
+					return true
+				}
+				for _, a := range c2.Args {
+					if t := p.TypeOf(fetch, a); t != nil && isNamed(t, "context", "Context") {
+						nafter++
+						if id, ok := ast.Unparen(a).(*ast.Ident); !ok || p.ObjOf(fetch, id) != derived {
+							allDerived = false
+						}
+					}
+				}
+				return true
+			})
+			okCtx = nafter > 0 && allDerived
+		}
 		okArg := len(call.Args) > 0 && func() bool {
 			id, ok := ast.Unparen(call.Args[0]).(*ast.Ident)
 			return ok && (p.ObjOf(fetch, id) == ctxParam(p, fetch) || p.CanonObj(fetch, id) == ctxParam(p, fetch))
